@@ -536,6 +536,86 @@ func C12(c *core.Ctx) {
 
 	// ---- R12.6 (shared with C03 R3.4) the post-signing length fix-up keeps the header
 	// inside the buffer that replaces the wire segment
+	// ---- R12.8 a validator checks the WHOLE signature value: the bytes handed to the
+	// verification primitive (ecdsa.VerifyASN1, rsa.VerifyPKCS1v15, hmac.Equal, bytes.Equal,
+	// ed25519.Verify) are the result of Signature.SigValue() itself — not a slice of it. A
+	// validator that cuts the value down to what it understands (the first DER element)
+	// accepts a packet whose remaining signature octets were altered: a bit flipped inside the
+	// signature value must make decoding fail or the validator reject.
+	{
+		nV := 0
+		for _, fn := range p.FuncsIn(core.ModPath + "/std/security") {
+			if strings.HasSuffix(p.File(fn.Pos()), "_test.go") {
+				continue
+			}
+			core.Instrs(fn, func(in ssa.Instruction) {
+				ci, ok := in.(ssa.CallInstruction)
+				if !ok {
+					return
+				}
+				id, okID := core.Callee(ci.Common())
+				if !okID {
+					return
+				}
+				sigIdx := -1
+				switch {
+				case id.Pkg == "crypto/ecdsa" && id.Name == "VerifyASN1":
+					sigIdx = 2
+				case id.Pkg == "crypto/rsa" && (id.Name == "VerifyPKCS1v15" || id.Name == "VerifyPSS"):
+					sigIdx = 3
+				case id.Pkg == "crypto/ed25519" && id.Name == "Verify":
+					sigIdx = 2
+				case (id.Pkg == "crypto/hmac" || id.Pkg == "bytes") && id.Name == "Equal":
+					sigIdx = 1
+				}
+				if sigIdx < 0 || sigIdx >= len(ci.Common().Args) {
+					return
+				}
+				// the signature argument, back to SigValue() or to the parameter it arrived in
+				cut := ""
+				fromSig := false
+				seen := map[ssa.Value]bool{}
+				var walk func(v ssa.Value, d int)
+				walk = func(v ssa.Value, d int) {
+					v = core.Strip(v)
+					if d > 6 || seen[v] {
+						return
+					}
+					seen[v] = true
+					switch y := v.(type) {
+					case *ssa.Slice:
+						cut = c.Pos(y)
+						walk(y.X, d+1)
+					case *ssa.Phi:
+						for _, e := range y.Edges {
+							walk(e, d+1)
+						}
+					case *ssa.Call:
+						if y.Call.IsInvoke() && y.Call.Method.Name() == "SigValue" {
+							fromSig = true
+						}
+					case *ssa.Parameter:
+						// CheckHmacSig(sigCovered, sigValue, key): the callers pass SigValue()
+						for _, cs := range p.Callers(y.Parent()) {
+							for i, q := range y.Parent().Params {
+								if q == y && i < len(cs.Common().Args) {
+									walk(cs.Common().Args[i], d+1)
+								}
+							}
+						}
+					}
+				}
+				walk(ci.Common().Args[sigIdx], 0)
+				if !fromSig {
+					return // not a comparison against a packet's signature value
+				}
+				nV++
+				c.Funcs[core.FuncName(fn)] = true
+				c.Decide(cut == "", "R12.8", fmt.Sprintf("validator-checks-whole-signature-value:%s:%s", core.FuncName(fn), id.Name), c.Pos(in), "the verification primitive receives SigValue() as it is", core.FuncName(fn)+" hands "+id.Pkg+"."+id.Name+" a slice of the packet's signature value (cut at "+cut+"), not the value itself: the octets outside the slice are covered by nothing, so flipping a bit of them leaves a packet that decodes and that the validator still accepts")
+			})
+		}
+		c.Floor("R12.8", "verification primitives applied to a packet's signature value", nV, 4)
+	}
 	// ---- R12.9 (shared with C13 R13.13) the digest and signature ranges the parser
 	// reconstructs end where the encoder's end: an element of a known type that arrives
 	// behind the field cursor must not run the cursor past the range markers (that closes
